@@ -380,7 +380,7 @@ func redactPipelineStage(stage interface{}, redactFieldNames bool, keyPath []str
 			redactedKey := k
 			newKeyPath := append(keyPath, k)
 			opMeta, isOp := getOp(newKeyPath, inSearchStage)
-			if redactFieldNames && (!isOp || (isOp && opMeta == nil)) {
+			if redactFieldNames && !strings.HasPrefix(k, "$") && (!isOp || (isOp && opMeta == nil)) {
 				redactedKey = HashName(k)
 			}
 			if isOp && inSearchStage && opMeta != nil {
@@ -560,7 +560,7 @@ func redactPipelineStage(stage interface{}, redactFieldNames bool, keyPath []str
 						}
 						redactedSubK := subK
 						metaVal, metaOk := meta.Get(subK)
-						if redactFieldNames && (!subFound || (subFound && metaVal == nil && metaOk)) {
+						if redactFieldNames && !strings.HasPrefix(subK, "$") && (!subFound || (subFound && metaVal == nil && metaOk)) {
 							redactedSubK = HashName(subK)
 						}
 						if subStr, ok := subV.(string); ok && len(subStr) > 0 && subStr[0] == '$' && redactFieldNames {
@@ -652,7 +652,7 @@ func redactQueryValues(obj *orderedmap.OrderedMap[string, any], redactFieldNames
 			coreOp, isOp = CoreOperators.Get(k)
 		}
 		if redactFieldNames {
-			if !isOp {
+			if !isOp && !strings.HasPrefix(k, "$") {
 				redactedKey = HashName(k)
 			}
 		}
